@@ -42,6 +42,21 @@ let parse_kind (s : string) : kind =
   | ["D"; ir; rt; is; st; n] -> KDimmer (ir = "1", parse_table rt, is = "1", parse_table st, n_of_int (ios n))
   | _ -> failwith "bad kind"
 
+(* network configuration: host~domain~route_if~route_gw~dns+dns~iface+iface, iface = name.ip.mask.hw.index.type *)
+let plus s = if s = "-" || s = "" then [] else String.split_on_char '+' s
+let parse_net (s : string) : netcfg =
+  match String.split_on_char '~' s with
+  | [host; dom; rif; rgw; dns; ifs] ->
+    { n_ifs = List.map (fun e -> match String.split_on_char '.' e with
+          | [nm; ip; mask; hw; idx; ty] ->
+            { if_name = bytes_of_hex nm; if_ip = n_of_string ip; if_mask = n_of_string mask; if_hw = bytes_of_hex hw;
+              if_index = n_of_string idx; if_type = n_of_string ty;
+              if_dhcp = n_of_int (int_of_string idx mod 3) }
+          | _ -> failwith "bad iface") (plus ifs);
+      n_route = Some (n_of_string rif, n_of_string rgw);
+      n_host = bytes_of_hex host; n_domain = bytes_of_hex dom;
+      n_dns = Some (List.map n_of_string (plus dns)) }
+  | _ -> failwith "bad net"
 let pid_start_address = 0x00f0 and pid_personality = 0x00e0
 let handle (p : string) : string =
   match split p with
@@ -90,7 +105,30 @@ let handle (p : string) : string =
     let hist = List.map (fun e -> fst (parse_req e)) (String.split_on_char '/' seq) in
     let acks outs = List.length (List.filter (fun o -> match o with
         | [(_, Some r)] -> int_of_n r.r_type = 0 | _ -> false) outs) in
-    if kind = "moving" then begin
+    if kind = "dummy" then begin
+      (match String.split_on_char '|' init with
+       | [clk; um; up; uf; net; sens] ->
+         (match commas clk with
+          | [cv; _; y; mo; dd; hh; mi; ss] ->
+            let mc = { mc_strs = cfg; mc_codever = bytes_of_hex cv; mc_year = n_of_int (ios y); mc_mon = n_of_int (ios mo);
+                       mc_day = n_of_int (ios dd); mc_hour = n_of_int (ios hh); mc_min = n_of_int (ios mi);
+                       mc_sec = n_of_int (ios ss) } in
+            let dc = { dc_strs = cfg; dc_codever = bytes_of_hex cv; dc_url_manu = bytes_of_hex um;
+                       dc_url_product = bytes_of_hex up; dc_url_firmware = bytes_of_hex uf; dc_clock = mc;
+                       dc_net = parse_net net } in
+            let st0 = dr_init (cfg_sensors N0 (List.map n_of_string (commas sens))) in
+            let outs, st = dr_run dc (n_of_string uid) hist st0 in
+            Printf.sprintf "t=%s;a=%s;s=%s;class=resp:dummy:acks%d" (String.concat "/" (List.map replies_s outs))
+              (nlist_s [st.dr_start; st.dr_active; (if st.dr_ident then n_of_int 1 else N0); st.dr_strikes])
+              (nlist_s (sensors_dyn st.dr_sensors)) (min 3 (acks outs / 8))
+          | _ -> "bad-init")
+       | _ -> "bad-init")
+    end else if kind = "network" then begin
+      let nc = { nc_strs = cfg; nc_net = parse_net init } in
+      let outs, st = nr_run nc (n_of_string uid) hist false in
+      Printf.sprintf "t=%s;a=%s;class=resp:network:acks%d" (String.concat "/" (List.map replies_s outs))
+        (bool01 st) (min 3 (acks outs / 8))
+    end else if kind = "moving" then begin
       (match commas init with
        | [cv; _; y; mo; dd; hh; mi; ss] ->
          let mc = { mc_strs = cfg; mc_codever = bytes_of_hex cv; mc_year = n_of_int (ios y); mc_mon = n_of_int (ios mo);
